@@ -89,8 +89,10 @@ struct Case {
     /// None = header fault (no header event)
     header: Option<(u32, u32)>,
     good: Vec<Inst>,
-    /// Some(class) = parsing ends with this ParseState class after `good`; None = accepted
+    /// Some(class) = parsing ends with this ParseState class after `good` ("*" = any parse error); None = accepted
     fault: Option<&'static str>,
+    /// false: only the all-continue script, Stop at the last callback and Error at the one before it
+    all_scripts: bool,
 }
 
 fn good_kinds() -> Vec<Inst> {
@@ -146,7 +148,7 @@ fn cases(max_good: usize) -> Vec<Case> {
         for i in &good {
             words.extend(enc(i));
         }
-        out.push(Case { name: format!("ok{:?}", s), bytes: model::words_to_bytes(&words), header: Some((0x0001_0300, 77)), good: good.clone(), fault: None });
+        out.push(Case { name: format!("ok{:?}", s), bytes: model::words_to_bytes(&words), header: Some((0x0001_0300, 77)), good: good.clone(), fault: None, all_scripts: true });
         // malformed instruction at every position 0..=len (the instructions after it are never reached)
         for (label, class, prefix, mw) in malformed() {
             for pos in 0..=good.len() {
@@ -164,23 +166,23 @@ fn cases(max_good: usize) -> Vec<Case> {
                 for i in &good[pos..] {
                     words.extend(enc(i));
                 }
-                out.push(Case { name: format!("{}@{}in{:?}", label, pos, s), bytes: model::words_to_bytes(&words), header: Some((0x0001_0300, 77)), good: delivered, fault: Some(class) });
+                out.push(Case { name: format!("{}@{}in{:?}", label, pos, s), bytes: model::words_to_bytes(&words), header: Some((0x0001_0300, 77)), good: delivered, fault: Some(class), all_scripts: true });
             }
         }
     }
     // header faults
     for n in 0..20 {
         let full = model::words_to_bytes(&hdr);
-        out.push(Case { name: format!("header-truncated-{}", n), bytes: full[..n].to_vec(), header: None, good: vec![], fault: Some("HeaderIncomplete") });
+        out.push(Case { name: format!("header-truncated-{}", n), bytes: full[..n].to_vec(), header: None, good: vec![], fault: Some("HeaderIncomplete"), all_scripts: true });
     }
     let mut wrong = hdr.clone();
     wrong[0] = 0x1234_5678;
     wrong.extend(enc(&kinds[0]));
-    out.push(Case { name: "wrong-magic".into(), bytes: model::words_to_bytes(&wrong), header: None, good: vec![], fault: Some("HeaderIncorrect") });
+    out.push(Case { name: "wrong-magic".into(), bytes: model::words_to_bytes(&wrong), header: None, good: vec![], fault: Some("HeaderIncorrect"), all_scripts: true });
     let mut sw = hdr.clone();
     sw[0] = sw[0].swap_bytes();
     sw.extend(enc(&kinds[0]));
-    out.push(Case { name: "swapped-magic".into(), bytes: model::words_to_bytes(&sw), header: None, good: vec![], fault: Some("EndiannessUnsupported") });
+    out.push(Case { name: "swapped-magic".into(), bytes: model::words_to_bytes(&sw), header: None, good: vec![], fault: Some("EndiannessUnsupported"), all_scripts: true });
     out
 }
 
@@ -205,7 +207,16 @@ fn check_case(c: &Case) -> (Vec<Viol>, BTreeMap<String, u64>, u64) {
     let mut runs = 0u64;
     // positions 0..=full.len() : one beyond the last callback too (script never fires)
     let mut scripts: Vec<Option<(usize, Answer)>> = vec![None];
-    for p in 0..=full.len() {
+    if !c.all_scripts {
+        scripts.push(Some((full.len() - 1, Answer::Stop)));
+        if full.len() >= 2 {
+            scripts.push(Some((full.len() - 2, Answer::Error)));
+        }
+    }
+    for p in 0..=if c.all_scripts { full.len() } else { 0 } {
+        if !c.all_scripts {
+            break;
+        }
         scripts.push(Some((p, Answer::Stop)));
         scripts.push(Some((p, Answer::Error)));
         for k in 0..4 {
@@ -253,7 +264,7 @@ fn check_case(c: &Case) -> (Vec<Viol>, BTreeMap<String, u64>, u64) {
                 other => out.push(viol(key("error-payload"), format!("case {} script {:?}: ConsumerError carries {:?}, not the consumer's own ParseState value", c.name, script, other.map(state_name)), rep.clone())),
             },
             (None, Ok(())) if c.fault.is_none() => *oc.entry("complete".into()).or_insert(0) += 1,
-            (None, Err(e)) if c.fault == Some(state_name(e)) => *oc.entry(format!("parse_error_{}", state_name(e))).or_insert(0) += 1,
+            (None, Err(e)) if c.fault == Some(state_name(e)) || c.fault == Some("*") && !state_name(e).starts_with("Consumer") && state_name(e) != "Complete" => *oc.entry(format!("parse_error_{}", state_name(e))).or_insert(0) += 1,
             (f, r) => out.push(viol(
                 key("result"),
                 format!("case {} script {:?}: result {:?}, expected {}", c.name, script, r.as_ref().map_err(|e| state_name(e)), match f { Some((_, Answer::Stop)) => "ConsumerStopRequested".to_string(), Some((_, Answer::Error)) | Some((_, Answer::ErrorState(_))) => "ConsumerError".to_string(), None => format!("{:?}", c.fault.unwrap_or("Ok")) }),
@@ -270,14 +281,16 @@ fn check_case(c: &Case) -> (Vec<Viol>, BTreeMap<String, u64>, u64) {
                 out.push(viol(format!("C14:loader:module-from-partial-parse"), format!("case {}: load_bytes returned a module although parsing ends with {:?}", c.name, c.fault), json!({"kind": "bytes", "bytes": hex(&c.bytes)})));
             } else {
                 let n = m.all_inst_iter().count();
-                if n != c.good.len() {
+                // (universe binaries: a second OpMemoryModel replaces the first, so only the hand-built cases count)
+                if n != c.good.len() && c.all_scripts {
                     out.push(viol(format!("C14:loader:instruction-count"), format!("case {}: loaded module holds {} instructions, binary has {}", c.name, n, c.good.len()), json!({"kind": "bytes", "bytes": hex(&c.bytes)})));
                 }
                 *oc.entry("loader_module".into()).or_insert(0) += 1;
             }
         }
         Ok(Err(e)) => {
-            if c.fault.is_none() {
+            // (universe binaries may be complete for the parser and still structurally unacceptable for the loader)
+            if c.fault.is_none() && c.all_scripts {
                 out.push(viol(format!("C14:loader:rejects-complete"), format!("case {}: load_bytes failed with {:?} on a well-formed module-level binary", c.name, state_name(&e)), json!({"kind": "bytes", "bytes": hex(&c.bytes)})));
             } else {
                 *oc.entry("loader_no_module".into()).or_insert(0) += 1;
@@ -287,8 +300,34 @@ fn check_case(c: &Case) -> (Vec<Viol>, BTreeMap<String, u64>, u64) {
     (out, oc, runs)
 }
 
+/// one binary of the C03 corruption universe: the expected callbacks come from the reference acceptor
+fn universe_case(id: &str, m: &crate::mutate::Mutant) -> (Option<Viol>, String, bool) {
+    use crate::acceptor::{accept, Verdict};
+    let class = m.what.split(|c| c == ':' || c == '@').next().unwrap_or("").to_string();
+    let (header, good, fault, label): (Option<(u32, u32)>, Vec<Inst>, Option<&'static str>, &str) = match accept(&m.bytes) {
+        Verdict::HeaderIncomplete => (None, vec![], Some("HeaderIncomplete"), "header-fault"),
+        Verdict::WrongMagic => (None, vec![], Some("HeaderIncorrect"), "header-fault"),
+        Verdict::SwappedMagic => (None, vec![], Some("EndiannessUnsupported"), "header-fault"),
+        Verdict::Accept { version, bound, insts } => (Some((version, bound)), insts, None, "accepted"),
+        Verdict::Reject { version, bound, insts, .. } => (Some((version, bound)), insts, Some("*"), "rejected"),
+    };
+    if good.iter().any(|i| model::to_dr(i).is_none()) {
+        return (None, "model-unconstructible".into(), false);
+    }
+    let c = Case { name: format!("universe-{}@{}/{}", class, id, m.what), bytes: m.bytes.clone(), header, good, fault, all_scripts: false };
+    let (v, _oc, _n) = check_case(&c);
+    (v.into_iter().next(), label.to_string(), fault.is_none())
+}
+
 pub fn run(tier: Tier) -> Run {
     let mut run = Run::new("C14", tier, "model_checking");
+    // ---- the whole C03 corruption universe (every opcode shape, every single-point corruption): callbacks expected
+    //      by the reference acceptor; scripts all-continue, Stop at the last callback, Error at the one before it
+    let sw = crate::checks::c03::sweep(tier, &universe_case);
+    run.add_all(sw.viols.iter().cloned());
+    for (o, c) in &sw.outcomes {
+        run.outcome(&format!("universe:{}", o), *c);
+    }
     let cs = cases(tier.pick(3, 5));
     let res: Vec<(Vec<Viol>, BTreeMap<String, u64>, u64)> = cs.par_iter().map(check_case).collect();
     let mut runs = 0;
@@ -298,16 +337,19 @@ pub fn run(tier: Tier) -> Run {
         runs += n;
     }
     let positions: u64 = cs.iter().map(|c| expected_log(c).len() as u64 + 1).sum();
-    run.set("states", json!(positions));
-    run.set("transitions", json!(runs));
-    run.set("traces_validated_against_impl", json!(runs));
-    run.set("bounds", json!({"binaries": cs.len(), "good_instructions_per_binary": format!("0..{}", tier.pick(3, 5)), "instruction_kinds": 3, "parse_error_classes": 7,
+    run.set("states", json!(positions + sw.evaluations));
+    run.set("transitions", json!(runs + 4 * sw.evaluations));
+    run.set("traces_validated_against_impl", json!(runs + 4 * sw.evaluations));
+    run.set("bounds", json!({"universe_binaries": sw.evaluations, "universe_seeds": sw.seeds, "universe_scripts": "all-continue, Stop at the last expected callback, Error at the one before it, the real Loader", "binaries": cs.len(), "good_instructions_per_binary": format!("0..{}", tier.pick(3, 5)), "instruction_kinds": 3, "parse_error_classes": 7,
         "malformed_position": "every position", "header_faults": "every truncation 0..19 bytes, wrong magic, swapped magic",
         "consumer_scripts": "all-continue; Stop and Error at every callback position and one past the last"}));
     run.set("bound_completed", json!({"deviations": 1}));
     run.set("exhaustive", json!(true));
     run.set("samples", json!(cs.iter().step_by(cs.len() / 5 + 1).map(|c| json!({"case": c.name, "bytes": hex(&c.bytes), "expected_callbacks": expected_log(c).len()})).collect::<Vec<_>>()));
-    run.set("rule", json!("state = (binary, callback position); every state is driven with answers continue / stop / error on the real Parser; the log of callbacks is compared with the protocol prefix, the result with the answer given, the ConsumerError payload with the consumer's own error by identity; the real Loader is run on every binary"));
+    run.set("rule", json!("state = (binary, callback position); every state is driven with answers continue / stop / error on the real Parser; the log of callbacks is compared with the protocol prefix, the result with the answer given, the ConsumerError payload with the consumer's own error by identity; the real Loader is run on every binary. The same is done, with three scripts per binary, for every binary of the C03 corruption universe, where the expected callbacks (the instructions preceding the first malformed one) come from the reference acceptor"));
+    run.require_outcome("universe:accepted");
+    run.require_outcome("universe:rejected");
+    run.require_outcome("universe:header-fault");
     for o in ["stop_honoured", "error_carried", "forwarded_state_carried", "complete", "loader_module", "loader_no_module", "parse_error_WordCountZero", "parse_error_OpcodeUnknown", "parse_error_OperandExpected", "parse_error_OperandExceeded", "parse_error_OperandError", "parse_error_TypeUnsupported", "parse_error_SpecConstantOpIntegerIncorrect", "parse_error_HeaderIncomplete", "parse_error_HeaderIncorrect", "parse_error_EndiannessUnsupported"] {
         run.require_outcome(o);
     }
